@@ -149,14 +149,34 @@ fn mixtures(m: &mut Monitor, cfg: &Config) {
                     m.check_bool("complete:feed inside envelope is unstable", "pcsaft-hc|interior feed reported stable", c, unstable, || info2.clone());
                 }
             }
-            match PhaseEquilibrium::tp_flash(&pr.eos, temp, p, &feed, None, SolverOptions::default(), None) {
+            feos_core::verif::trace_begin();
+            let flash = PhaseEquilibrium::tp_flash(&pr.eos, temp, p, &feed, None, SolverOptions::default(), None);
+            let trace = feos_core::verif::trace_end();
+            match flash {
                 Ok(_) => {
                     m.check_bool("complete:flash from interior feed splits", "pcsaft-hc|flash", c, true, || info.clone());
                 }
                 Err(EosError::NoPhaseSplit) => {
                     m.check_bool("complete:flash from interior feed splits", "pcsaft-hc|NoPhaseSplit for interior feed", c, false, || json!({"info": info, "fraction": frac}));
                 }
-                Err(_) => m.skip("complete:flash", "flash failed for another reason (C05)"),
+                Err(e) => {
+                    // not a phase split either: the feed is reported unstable but the flash gives up
+                    let kind: String = e.to_string().chars().take(40).collect();
+                    // recorded defect (F24 of C05): Rachford-Rice breaks down when one component is
+                    // practically non-volatile; that class is keyed separately
+                    // trace specification: the flash owns two starts when the stability analysis of
+                    // its feed returns two trial phases, and must have tried both before giving up.
+                    // Giving up after all available starts is the recorded Rachford-Rice defect
+                    // (F24 of C05); giving up earlier is something else
+                    let ntrials = State::new_npt(&pr.eos, temp, p, &feed, DensityInitialization::None)
+                        .ok()
+                        .and_then(|fs| no_panic(|| fs.stability_analysis(SolverOptions::default())).ok())
+                        .and_then(|r| r.ok())
+                        .map_or(0, |t| t.len());
+                    let tried2 = trace.contains(&feos_core::verif::Site::TpFlashInit2);
+                    let class = if tried2 || ntrials < 2 { "all available starts tried" } else { "second start not tried although two trial phases exist" };
+                    m.check_bool("complete:flash from interior feed splits", &format!("pcsaft-hc|flash error for interior feed|{class}"), c, false, || json!({"info": info, "fraction": frac, "error": kind, "trial phases of the feed": ntrials, "second start tried": tried2}));
+                }
             }
         }
         // exterior feeds: 2 % outside the envelope
@@ -168,6 +188,31 @@ fn mixtures(m: &mut Monitor, cfg: &Config) {
             let info2 = json!({"info": info, "side": if k == 0 { "below dew pressure" } else { "above bubble pressure" }});
             if let Some(unstable) = analyse(m, "pcsaft-hc", c, &fs, &info2) {
                 m.check_bool("sound:feed outside envelope is stable", "pcsaft-hc|exterior feed reported unstable", c, !unstable, || info2.clone());
+            }
+        }
+        // pure edges of the binary model: a feed in which one component is absent (mole number
+        // exactly zero), 2 x above / 0.5 x below that component's saturation pressure, is stable
+        for k in 0..2 {
+            let sub = std::sync::Arc::new(feos_core::Components::subset(&*pr.eos, &[k]));
+            let Ok(sat) = PhaseEquilibrium::pure(&sub, temp, None, SolverOptions::default()) else {
+                continue;
+            };
+            let ps = sat.vapor().pressure(Contributions::Total);
+            if ps.to_reduced() < 1e-5 {
+                continue;
+            }
+            let mut n = [0.0, 0.0];
+            n[k] = 1.0;
+            let edge = Moles::from_reduced(arr1(&n));
+            for (j, (p, init)) in [(ps * 0.5, DensityInitialization::Vapor), (ps * 2.0, DensityInitialization::Liquid)].into_iter().enumerate() {
+                let Ok(fs) = State::new_npt(&pr.eos, temp, p, &edge, init) else {
+                    continue;
+                };
+                let c = case + 30 + 2 * k as u64 + j as u64;
+                let info2 = json!({"info": info, "pure edge": pr.names[k], "p/p_sat": if j == 0 { 0.5 } else { 2.0 }});
+                if let Some(unstable) = analyse(m, "pcsaft-hc edge", c, &fs, &info2) {
+                    m.check_bool("sound:pure edge of a mixture outside its binodal is stable", "pcsaft-hc|pure edge reported unstable", c, !unstable, || info2.clone());
+                }
             }
         }
     });
